@@ -13,4 +13,4 @@ one() {
   rm -rf $SCR
 }
 export -f one; export BASE HERE SEED
-ls -d $HERE/seeded/*/ | xargs -P $JOBS -I{} bash -c 'one {}'
+ls -d $HERE/seeded/*/ | grep -E "${ONLY:-.}" | xargs -P $JOBS -I{} bash -c 'one {}'
